@@ -185,7 +185,7 @@ def judge(ctx, ast, sp, T, vi, v):
         core.add_violation(res, {'kind': 'tree_vs_error_text', 'root': root},
                            f"{desc}: str(error) != str(error.tree)", e1.cell_desc(ast, sp, vi, v), cost)
     problem = completeness(err.tree, text, v)
-    if not problem and e1.leaves_of(ast) & {'cond:raises', 'cond:or_raises'} and _re.search(r"condition '[^'\n]*boom", text) and 'predicate exploded' not in text:
+    if not problem and e1.leaves_of(ast) & {'cond:raises', 'cond:or_raises'} and _re.search(r"condition '(never or )?boom'", text) and 'predicate exploded' not in text:
         # model side: whenever the condition named 'boom' is reported as failed, its predicate raised - the message must say so
         problem = "the condition 'boom' failed because its predicate raised, but the exception's message (predicate exploded) is missing"
 
